@@ -477,7 +477,9 @@ def selftest(ctx, trace):
     # (c) a dropped event (an applied original) must at least be drift
     t = [dict(e) for e in trace]
     for n, e in enumerate(t):
-        if e["ev"] == "Post" and e["appended"] and e["t"] == "msg":
+        # an applied original whose retry follows: without it the retry is unexplained
+        if e["ev"] == "Post" and e["appended"] and e["t"] == "msg" and n + 1 < len(t) \
+                and t[n + 1]["ev"] == "Retry" and t[n + 1]["c"] == e["c"]:
             del t[n]
             r = validate(ctx, t, name="tlc-selftest-c")
             acc = rig_common.trace_accepted(r.out)
